@@ -798,6 +798,9 @@ def run_claims(pid, rep, prog, tier):
         rest = e2.run_with_raw(prog, ht, max_witnesses=2)
         replay_script_timeout(rep, ht, rest)
         e2.record(rep, ht, rest)
+    if pid == "C14":
+        from props import c16
+        c16.run_timeout_seconds(rep, tier)
     if pid in ("C14", "C18"):
         hr = h_subprocess_runner(prog)
         resr = e2.run_with_raw(prog, hr, max_witnesses=3)
